@@ -211,7 +211,39 @@ fn gen_derived(ch: &mut Chooser, world: &World, n: usize) -> Vec<BindingSite> {
 }
 
 pub fn prepare_with(ch: &mut Chooser, name: &str, nb: usize, opts: &GenOpts, n_derived: usize) -> Prep {
+    prepare_full(ch, name, nb, opts, n_derived, false)
+}
+
+/// members of gadget-valued target properties that get generated (dynamic) bindings
+const GADGET_MEMBERS: &[(&str, T)] = &[("tfont.bold", T::Bool), ("tfont.pointSize", T::Int), ("tfont.italic", T::Bool), ("tpol.horizontalStretch", T::Int), ("tpol.verticalStretch", T::Int)];
+
+pub fn prepare_full(ch: &mut Chooser, name: &str, nb: usize, opts: &GenOpts, n_derived: usize, gadgets: bool) -> Prep {
     let mut doc = gen_lang_doc(ch, nb, 0, opts);
+    if gadgets {
+        // grouped bindings on gadget-valued properties: dynamic members, sometimes next to a constant one
+        let hosts: Vec<usize> = doc.world.exactly("VDst");
+        for h in hosts {
+            if !ch.chance(1, 2) {
+                continue;
+            }
+            let mut used: Vec<&str> = vec![];
+            for _ in 0..1 + ch.below(3) {
+                let (path, ty) = ch.pick(GADGET_MEMBERS).clone();
+                if used.contains(&path) {
+                    continue;
+                }
+                used.push(path);
+                ch.label("gadget-member-binding");
+                let program = gen_binding(ch, &doc.world, h, &ty, None, opts.clone());
+                doc.bindings.push(BindingSite { host: h, bind: 0, prop: path, program });
+            }
+            if used.iter().any(|p| p.starts_with("tfont.")) && ch.chance(1, 2) {
+                ch.label("gadget-constant-member-next-to-dynamic");
+                let lit = E::Str("Mono".into(), "\"Mono\"".into());
+                doc.bindings.push(BindingSite { host: h, bind: 0, prop: "tfont.family", program: Program { ty: T::Str, body: Body::Expr(lit), locals: vec![], params: 0 } });
+            }
+        }
+    }
     let mut derived = if n_derived > 0 { gen_derived(ch, &doc.world, n_derived) } else { vec![] };
     // initial state: the candidate with the most defined bindings
     let mut best: Option<(usize, Vec<ObjState>)> = None;
@@ -279,7 +311,7 @@ pub fn prepare_with(ch: &mut Chooser, name: &str, nb: usize, opts: &GenOpts, n_d
     let mut dynamic = vec![];
     let mut folded = 0;
     for (k, b) in doc.bindings.iter().enumerate() {
-        let f = format!("eval{}{}", cap(&doc.world.objs[b.host].id), cap(b.prop));
+        let f = format!("eval{}{}", cap(&doc.world.objs[b.host].id), b.prop.split('.').map(cap).collect::<String>());
         if h.funcs.iter().any(|x| x.name == f) {
             dynamic.push(k);
         } else {
